@@ -743,6 +743,10 @@ func evalFunctionCall(node *CallExpression, env *Environment) Object {
 		return args[0]
 	}
 
+	if len(args) != funcObj.Arity {
+		return newError("incorrect number of operands for operator or function; function: %s, number of operands: %d", funcObj.Name, len(args))
+	}
+
 	return fn.(*Function).Value(args...)
 }
 
@@ -764,6 +768,10 @@ func evalUpdateFunctionCall(node *CallExpression, env *Environment) Object {
 	args := evalUpdateExpressions(node.Arguments, env)
 	if len(args) == 1 && isError(args[0]) {
 		return args[0]
+	}
+
+	if len(args) != funcObj.Arity {
+		return newError("incorrect number of operands for operator or function; function: %s, number of operands: %d", funcObj.Name, len(args))
 	}
 
 	return fn.(*Function).Value(args...)
